@@ -58,6 +58,14 @@ class WorldGen(wc.Gen):
         self.ref.threads = threads
         self.lines = []
         self.wid = wid
+        # every world declares its OWN dependencies (often different ones for the same master): a closure cached per
+        # process or per thread instead of per manager would leak them from one world into another
+        for _ in range(rng.choice([0, 1, 2, 2])):
+            m = rng.choice(self.letters)
+            ds = [d for d in rng.sample(self.letters, rng.randint(1, 2)) if d != m]
+            if ds:
+                self.ref.add_dep(m, ds)
+                self.emit("dep %s %s" % (m, ",".join(sorted(ds))))
 
     def any_handle(self):
         """malformed stream: stale own handles, null, and patterns stamped with ANOTHER world's id (a raw pattern carrying
@@ -456,6 +464,75 @@ class Session:
             self.samples.append(wc.op_lines(ops)[:30])
 
 
+def isolation_failure(sess, ops):
+    """Property oracle on the implementation alone, used when the model tie broke: "every world behaves identically, alone or
+    alongside others". For every world built by `world new`, the ops addressed to it are run on a process that contains ONLY
+    that world (same id, same context kind); its final dump must equal its dump in the full history (taken right before it is
+    dropped, or at the end). Returns None or (history, message): the history is the full one cut after the differing dump."""
+    lines = wc.op_lines(ops)
+    cur = None
+    n = 0
+    worlds = {}          # ordinal -> dict(new=line index, args, ops=[lines], end=index of its drop or None)
+    for i, l in enumerate(lines):
+        w = l.split()
+        if w[0] == "world":
+            if w[1] == "new":
+                worlds[n] = dict(new=i, args=[a for a in w[2:] if not a.startswith("reuse=")], ops=[], end=None)
+                cur = n
+                n += 1
+            elif w[1] == "churn":
+                n += int(w[2])
+            elif w[1] == "drop":
+                k = int(w[2])
+                if k in worlds and worlds[k]["end"] is None:
+                    worlds[k]["end"] = i
+                if cur == k:
+                    cur = None
+        elif w[0] == "use":
+            cur = int(w[1])
+        elif w[0] in ("validin", "getin", "in", "dumpall"):
+            continue
+        elif cur in worlds and worlds[cur]["end"] is None:
+            worlds[cur]["ops"].append(l)
+
+    def last_dump(out):
+        idx = [i for i, l in enumerate(out) if l == "dump"]
+        if not idx:
+            return None
+        blk = []
+        for l in out[idx[-1]:]:
+            blk.append(l)
+            if l == "end":
+                break
+        return blk
+
+    for k, W in sorted(worlds.items()):
+        cut = W["end"] if W["end"] is not None else len(lines)
+        full = "\n".join(lines[:cut] + ["use %d" % k, "dump"]) + "\n"
+        out_full, note, _ = wc.run_impl(sess.exe, full, timeout=300)
+        if note:
+            continue
+        wid = None
+        for l in out_full:
+            m = re.match(r"world %d id=(\d+)" % k, l)
+            if m:
+                wid = int(m.group(1))
+        if wid is None:
+            continue
+        args = [a for a in W["args"] if a != "auto" and not a.startswith("id=")]
+        alone = "\n".join(["world new id=%d %s" % (wid, " ".join(args))] + W["ops"] + ["dump"]) + "\n"
+        out_alone, note2, _ = wc.run_impl(sess.exe, alone, timeout=300)
+        if note2:
+            continue
+        a, b = last_dump(out_full), last_dump(out_alone)
+        if a is None or b is None or a == b:
+            continue
+        d = wc.first_diff(a, b, eq=lambda x, y: x == y)
+        return full, ("world %d (id %d) ends in a different state alongside the other worlds than when the same operations are "
+                      "run on it alone: dump line %d is `%s` here but `%s` alone" % (k, wid, d[0], d[1][:160], d[2][:160]))
+    return None
+
+
 def search_inputs(rng):
     """inputs tried when only the tie broke: histories known to stress each clause of the property"""
     out = [t for (_, t) in boundary_cases()]
@@ -534,7 +611,16 @@ def _run(ctx, rng, sess):
                 found = (t, r)
                 break
         name, ops, msg = failures["tie"][0]
-        if found:
+        iso = None
+        if not found:
+            # the histories on which the tie broke: does a world behave differently because of the others?
+            for (_n, t, _m) in failures["tie"][:5]:
+                iso = isolation_failure(sess, t)
+                if iso:
+                    break
+        if iso:
+            ctx.violation(iso[0], "C17 fails on the implementation (isolation oracle, after the model tie broke at %s): %s" % (name, iso[1][:600]))
+        elif found:
             small = wc.shrink(found[0], lambda t: (lambda x: x is not None and x[0] == found[1][0])(sess.check(t)), budget=80)
             r2 = sess.check(small)
             ctx.violation(small, "C17 fails on the implementation (found by the search after the model tie broke at %s): %s"
